@@ -13,9 +13,11 @@ TRUSTED = ["wf_theory / wf_theory_tokens: a well-formed tree admits ghost functi
            "pre_def: the spec lists P / Q (preorder / postorder) are *defined* by recursion over the ordered child "
            "lists through the node counts NN / SNNC (conservative definition; its clauses, incl. monotone prefix sums, "
            "are validated by ghost_axioms)",
-           "terminals / children are verified against characterisations (only tokens below, strictly increasing, "
-           "as many as NL / a permutation of the stored list in strict order of least token); that these determine "
-           "the lists T / C used by callers is the sorted-list uniqueness argument of DESIGN 3.9 (not machine-checked)",
+           "terminals / children are verified against characterisations (only tokens below, strictly increasing, every "
+           "token below occurs, as many as NL / a permutation of the stored list in strict order of least token); that "
+           "such a list is unique - so it is the list T / C callers reason about - is the lemma sorted_enumeration_unique, "
+           "proved in lean/Background.lean and checked by Lean on every run; applying it (members := tokens below x, "
+           "key := num) is the remaining paper step",
            "sorted(list, key=f) is modelled as: a permutation of its argument whose keys are non-decreasing"]
 ASSUMPTIONS = ["Tree.__eq__/__ne__ is identity on references (from Tree.id, unique per instance)",
                "int = mathematical integer; list value semantics; Tree heap model of DESIGN 3.3"]
@@ -241,13 +243,27 @@ from contracts.common import wf_theory_tokens
 from pyvc.core import named_result
 
 
+def all_tokens_in(H, tree, r, upto=None):
+    """completeness: every token below `tree` (below one of its first `upto` stored children, if given) occurs in r"""
+    y, i = z3.Int(fresh_name("cy")), z3.Int(fresh_name("ci"))
+    dt = H.depth(tree).t
+    cond = z3.And(tobool(WF(H, VRef(y))), H.nchild_t(y) == 0, tobool(desc(H, tree, VRef(y))))
+    if upto is not None:
+        cy = H.anc(VRef(y), VInt(dt + 1))
+        cond = z3.And(cond, y != tree.t, H.pos(cy).t < upto)
+    # (the trigger carrier TOK marks "y is being looked for"; it is the constant true)
+    return qforall([y], z3.Implies(cond, z3.Exists([i], z3.And(0 <= i, i < r.n, r.get(i).t == y))),
+                   [tobool(WF(H, VRef(y)))])
+
+
 def F_terminals(H, tree, r):
-    """r lists the tokens under `tree`: only tokens under tree, strictly increasing in num (globally), and exactly
-    as many as there are (so, by the pigeonhole principle, all of them, each once)"""
+    """r lists the tokens under `tree`: only tokens under tree, strictly increasing in num (globally), exactly
+    as many as there are, and every token below tree occurs"""
     i, j = z3.Int(fresh_name("fi")), z3.Int(fresh_name("fj"))
     n = r.n
     el = lambda q: r.get(q).t
     return z3.And(
+        all_tokens_in(H, tree, r),
         n >= 1, n == H.nleaves(tree).t,
         qforall([i], z3.Implies(z3.And(0 <= i, i < n), z3.And(
             el(i) != 0, tobool(WF(H, VRef(el(i)))), H.nchild_t(el(i)) == 0,
@@ -274,6 +290,8 @@ def terminals_verified_contract(reg):
             # what the recursive calls returned for the children processed so far
             VBool(qforall([k], z3.Implies(z3.And(0 <= k, k < it), F_terminals(H, VRef(H.child_t(tree.t, k)), TT(k))),
                           [H.child_t(tree.t, k)])),
+            # every token below one of the children processed so far has been collected
+            VBool(all_tokens_in(H, tree, result, upto=it)),
             # every element so far: which child it hangs below, and where it sits in that child's list
             VBool(qforall([a], z3.Implies(z3.And(0 <= a, a < result.n), z3.And(
                 0 <= own(a), own(a) < it,
@@ -461,3 +479,36 @@ VERIFY_AS["trees.trees.preorder"] = preorder_verified_contract
 VERIFY.append("trees.trees.preorder")
 VERIFY_AS["trees.trees.postorder"] = postorder_verified_contract
 VERIFY.append("trees.trees.postorder")
+
+
+# ------------------------------------------------------------------------------------------------------------------
+# background list lemmas checked by Lean (lean/Background.lean): the step from the verified characterisations of
+# terminals / children to "the result is the list T(x) / C(x)"
+# ------------------------------------------------------------------------------------------------------------------
+def lemma_lean_background(reg, repo):
+    import os
+    import shutil
+    import subprocess
+    import time
+    import re
+    here = os.path.dirname(os.path.dirname(os.path.abspath(__file__)))
+    path = os.path.join(here, "lean", "Background.lean")
+    names = re.findall(r"^theorem\s+(\w+)", open(path, encoding="utf-8").read(), re.M)
+    text = open(path, encoding="utf-8").read()
+    banned = [w for w in ("sorry", "axiom ", "admit", "native_decide") if w in text.split("-/", 1)[-1]]
+    t0 = time.time()
+    if shutil.which("lean") is None or banned:
+        return {n: ("unknown", "lean not available" if not banned else "file uses %s" % banned, 0.0) for n in names}
+    env = dict(os.environ)
+    try:
+        p = subprocess.run(["lean", path], capture_output=True, text=True, timeout=900, env=env)
+        ok = p.returncode == 0 and "error" not in (p.stdout + p.stderr)
+        detail = "lean4+mathlib" if ok else "lean rejected: " + (p.stdout + p.stderr)[:200]
+    except subprocess.TimeoutExpired:
+        ok, detail = False, "lean timed out"
+    dt = time.time() - t0
+    return {n: (("unsat" if ok else "unknown"), detail, dt / max(1, len(names))) for n in names}
+
+
+lemma_lean_background.external = True
+LEMMAS["lean_background"] = lemma_lean_background
